@@ -11,15 +11,16 @@ import (
 // Fault enumeration: every cut offset of each conversation of a seeded corpus.
 
 type convTxn struct {
-	ViaBdat  bool
-	Msg      []byte // what the backend must see if the message completes
-	Start    int    // client stream offset at which the message octets start being relevant (DATA line / first BDAT line)
-	End      int    // client stream offset one past the last octet of the end marker / LAST payload; -1 if the script never completes it
-	FinalIdx int    // index (0-based, greeting = 0) of the first final reply; -1 if none
-	NFinal   int
-	Abandon  string // "" or how the client abandons the transfer
-	Reject   bool
-	Partial  bool // the backend stops reading early and accepts
+	ViaBdat   bool
+	Msg       []byte // what the backend must see if the message completes
+	Start     int    // client stream offset at which the message octets start being relevant (DATA line / first BDAT line)
+	EmptyLast bool   // the transfer ends with BDAT 0 LAST
+	End       int    // client stream offset one past the last octet of the end marker / LAST payload; -1 if the script never completes it
+	FinalIdx  int    // index (0-based, greeting = 0) of the first final reply; -1 if none
+	NFinal    int
+	Abandon   string // "" or how the client abandons the transfer
+	Reject    bool
+	Partial   bool // the backend stops reading early and accepts
 }
 
 type convX struct {
@@ -123,6 +124,12 @@ func genConversation(t *Tape, sc *Scenario, allowAbandon bool) *convX {
 			for c := 0; c < nch; c++ {
 				last := c == nch-1 && !abandon
 				payload := convBody(t)
+				if last && c > 0 && t.Chance(1, 3) {
+					// the transfer is closed by an empty LAST chunk: its command line is the whole
+					// of it, and a line that has not arrived in full has not arrived
+					payload = nil
+					tx.EmptyLast = true
+				}
 				cmd := fmt.Sprintf("BDAT %d", len(payload))
 				if last {
 					cmd += " LAST"
@@ -369,6 +376,9 @@ func classifyConv(sc *Scenario, h *History, st *Stats) string {
 			inside = true
 			if tx.ViaBdat {
 				st.Probes["cut_inside_bdat_transfer"]++
+				if tx.EmptyLast && tx.End-sent <= 2 {
+					st.Probes["cut_inside_the_line_end_of_an_empty_LAST_chunk"]++
+				}
 			} else {
 				st.Probes["cut_inside_data_transfer"]++
 				if tx.End-sent <= 5 {
@@ -398,7 +408,7 @@ func classifyConv(sc *Scenario, h *History, st *Stats) string {
 func init() {
 	register(&Property{
 		ID: "C07", Level: "fault_enumeration",
-		Rule:        "a seeded corpus of healthy conversations (1-3 transactions, DATA and BDAT with 1-3 chunks, SMTP/LMTP, bodies with partial end markers, lock-step or pipelined, some transfers abandoned by RSET/QUIT/EHLO/MAIL/nothing); for EACH conversation one run per octet offset of the client's stream at which the connection is cut with FIN, plus RST / half-close / stall-until-ReadTimeout at every 5th/7th/9th offset, plus Server.Close at 63 instants spread over the (slowed) conversation. Non-trivial: the cut falls strictly inside a message transfer (after the DATA/BDAT command began, before the last octet of the end marker or LAST payload); distinct by (offset, kind, conversation).",
+		Rule:        "a seeded corpus of healthy conversations (1-3 transactions, DATA and BDAT with 1-3 chunks (a third of the multi-chunk transfers closed by an empty LAST chunk), SMTP/LMTP, bodies with partial end markers, lock-step or pipelined, some transfers abandoned by RSET/QUIT/EHLO/MAIL/nothing); for EACH conversation one run per octet offset of the client's stream at which the connection is cut with FIN, plus RST / half-close / stall-until-ReadTimeout at every 5th/7th/9th offset, plus Server.Close at 63 instants spread over the (slowed) conversation. Non-trivial: the cut falls strictly inside a message transfer (after the DATA/BDAT command began, before the last octet of the end marker or LAST payload); distinct by (offset, kind, conversation).",
 		Gen:         genC07,
 		Check:       checkC07,
 		Classify:    classifyConv,
@@ -406,7 +416,7 @@ func init() {
 		Real:        []string{"smtp.Server.Serve/handleConn", "smtp.Conn handleData/handleDataLMTP/handleBdat/reset/Close", "dataReader", "io.Pipe", "lineLimitReader", "net/textproto", "bufio"},
 		Stub:        []string{"net.Listener (SimListener)", "net.Conn (SimConn) with cut/RST/half-close/stall faults", "Backend/Session (SimBackend, reads to the end, propagates reader errors)", "clock (synctest)", "SMTP client (raw driver)"},
 		Assumptions: []string{"the other direction is judged for FIN and half-close cuts only: a message that arrived in full is delivered in full even when the peer's FIN is right behind it (also when the transport returns the last octets together with io.EOF)", "exhaustive over cut offsets of the generated corpus, not over all conversations", "reply positions are static because every command of the corpus is valid; replies are read from what the server wrote, delivered or not"},
-		Required:    []string{"cut_inside_end_marker", "cut_inside_bdat_transfer", "cut_inside_data_transfer", "cut_inside_message_of_exactly_the_size_limit", "cut_fin", "cut_rst", "cut_halfclose", "stall", "server_close_inside_transfer", "transfer_abandoned_by_RSET", "transfer_abandoned_by_QUIT"},
+		Required:    []string{"cut_inside_end_marker", "cut_inside_bdat_transfer", "cut_inside_data_transfer", "cut_inside_message_of_exactly_the_size_limit", "cut_fin", "cut_rst", "cut_halfclose", "stall", "server_close_inside_transfer", "transfer_abandoned_by_RSET", "transfer_abandoned_by_QUIT", "cut_inside_the_line_end_of_an_empty_LAST_chunk"},
 		QuickRuns:   900, ThoroughRuns: 60000,
 	})
 }
